@@ -53,6 +53,10 @@ type ScriptConn struct {
 	waiting int // Reads currently blocked with nothing to return
 	Created time.Time
 
+	// lastChunk, when non-nil, is handed out after inq by the Read that also returns inErr
+	// (a net.Conn may return n > 0 together with an error); set by FeedWithErr only
+	lastChunk []byte
+
 	writes   [][]byte
 	WriteErr error // if set, Writes fail with it
 	MaxRead  int   // if > 0, cap on bytes returned per Read
@@ -98,6 +102,21 @@ func (c *ScriptConn) Read(b []byte) (int, error) {
 				c.inq = c.inq[1:]
 			}
 			return n, nil
+		}
+		if c.lastChunk != nil {
+			// FeedWithErr: the final chunk is returned TOGETHER with the error by one Read
+			// (if the caller's buffer is too small, the part that fits comes first, alone)
+			lim := len(b)
+			if c.MaxRead > 0 && lim > c.MaxRead {
+				lim = c.MaxRead
+			}
+			n := copy(b[:lim], c.lastChunk)
+			if n < len(c.lastChunk) {
+				c.lastChunk = c.lastChunk[n:]
+				return n, nil
+			}
+			c.lastChunk = nil
+			return n, c.inErr
 		}
 		if c.inErr != nil {
 			return 0, c.inErr
@@ -211,6 +230,19 @@ func (c *ScriptConn) FeedChunks(data []byte, sizes []int) {
 // FeedErr makes Read return err (io.EOF, a reset, ...) once the queued data is consumed.
 func (c *ScriptConn) FeedErr(err error) {
 	c.mu.Lock()
+	c.inErr = err
+	c.cond.Broadcast()
+	c.mu.Unlock()
+}
+
+// FeedWithErr queues a final chunk that ONE Read returns together with err (n > 0 and a
+// non-nil error from the same call, which io.Reader permits: e.g. the last segment plus io.EOF).
+// Later Reads return (0, err). An empty chunk is FeedErr(err).
+func (c *ScriptConn) FeedWithErr(chunk []byte, err error) {
+	c.mu.Lock()
+	if len(chunk) > 0 {
+		c.lastChunk = append([]byte(nil), chunk...)
+	}
 	c.inErr = err
 	c.cond.Broadcast()
 	c.mu.Unlock()
